@@ -5,6 +5,7 @@ import OxiaVerif.Props.C11Defs
 import OxiaVerif.Model.SKV
 import OxiaVerif.Model.Wal
 import OxiaVerif.Model.Codec
+import OxiaVerif.Driver.DbProto
 
 /-! Line-protocol dispatch: one operation line in, one output line out. -/
 namespace Oxia.Driver
@@ -15,6 +16,8 @@ structure State where
   walCfg : Wal.Cfg := { segmentSize := 1024, headerSize := Facts.codecV2HeaderSize, truncFix := Facts.walTruncateUpdatesOffsetsOnAllPaths }
   walRetention : Int := 0
   wal : Wal.SW := Wal.SW.init
+  db : Db.Db := Db.Db.empty
+  dbDisk : Bool := false
 
 def State.init : State := {}
 
@@ -207,6 +210,66 @@ def stepCodec (st : State) (toks : List String) : State × String :=
     | _, _ => (st, "bad-op")
   | _ => (st, "bad-op")
 
+open DbProto in
+def stepDb (st : State) (toks : List String) : State × String :=
+  match toks with
+  | "db.new" :: rest =>
+    let en := (kvOf rest "notif").getD "1" != "0"
+    ({ st with db := { Db.Db.empty with notificationsEnabled := en }, dbDisk := (kvOf rest "disk") == some "1" }, "ok")
+  | "db.write" :: rest =>
+    match (kvOf rest "off").bind (·.toInt?), (kvOf rest "ts").bind (·.toNat?), parseWrite rest with
+    | some off, some ts, some req =>
+      let (db', r) := Db.processWrite st.db req off ts
+      ({ st with db := db' }, showWriteResp r)
+    | _, _, _ => (st, "bad-op")
+  | ["db.dump"] => (st, showStore st.db.store)
+  | ["db.tracker"] => (st, toString st.db.tracker)
+  | ["db.commit"] => (st, DbProto.showOptKey (Db.readAsciiLong st.db Db.commitOffsetKey))
+  | ["db.reopen"] =>
+    if !st.dbDisk then (st, "ok") else
+    ({ st with db := Db.reopen st.db (fun k => (String.ofList (k.map Char.ofNat)).toInt?.getD (-1)) }, "ok")
+  | ["db.get", c, k, incl] =>
+    match parseCmp c, Hex.decode k with
+    | some c, some k => (st, showGet (Db.get st.db k c (incl == "1")))
+    | _, _ => (st, "bad-op")
+  | ["db.list", lo, hi] =>
+    match Hex.decode lo, Hex.decode hi with
+    | some lo, some hi => (st, showKeys (Db.list st.db lo hi))
+    | _, _ => (st, "bad-op")
+  | ["db.scan", lo, hi] =>
+    match Hex.decode lo, Hex.decode hi with
+    | some lo, some hi =>
+      let rs := (SKV.range lo hi st.db.store).map fun p =>
+        match Db.asEntry p.2 with
+        | some e => Hex.encode p.1 ++ "=" ++ Hex.encode e.value ++ "," ++ showVersion e.toVersion
+        | none => "?=err"
+      (st, "n=" ++ toString rs.length ++ " " ++ String.intercalate " " rs)
+    | _, _ => (st, "bad-op")
+  | ["db.notifs", start] =>
+    match start.toInt? with
+    | some start =>
+      if !st.db.notificationsEnabled then (st, "err:oxia:_notifications_disabled") else
+      let bs := Db.readNotifications st.db start
+      (st, "n=" ++ toString bs.length ++ " " ++ String.intercalate " " (bs.map showBatch))
+    | none => (st, "bad-op")
+  | ["idx.list", name, lo, hi] =>
+    match Hex.decode name, Hex.decode lo, Hex.decode hi with
+    | some name, some lo, some hi =>
+      (st, match Db.indexList st.db name lo hi with
+        | some ks => showKeys ks
+        | none => "panic")
+    | _, _, _ => (st, "bad-op")
+  | ["idx.get", name, c, k] =>
+    match Hex.decode name, parseCmp c, Hex.decode k with
+    | some name, some c, some k =>
+      (st, match Db.indexGetKeys Facts.secondaryGetChecksIndexName st.db name k c with
+        | .found pk sk =>
+          "found(pk=" ++ Hex.encode pk ++ ",sk=" ++ Hex.encode sk ++ ") " ++ showGet (Db.get st.db pk .equal true)
+        | .notFound => "notfound"
+        | .error => "error")
+    | _, _, _ => (st, "bad-op")
+  | _ => (st, "bad-op")
+
 def step (st : State) (line : String) : State × String :=
   let toks := (line.splitOn " ").filter (· ≠ "")
   match toks with
@@ -217,6 +280,7 @@ def step (st : State) (line : String) : State × String :=
     else if t.startsWith "kv." then stepKv st toks
     else if t.startsWith "wal." then stepWal st toks
     else if t.startsWith "cx." || t.startsWith "cw." then stepCodec st toks
+    else if t.startsWith "db." || t.startsWith "idx." then stepDb st toks
     else (st, "bad-op")
 
 end Oxia.Driver
